@@ -97,6 +97,15 @@ def judge(case):
     # (c) the fits themselves
     if not v:
         v.extend(check_fits(setup.curve_set, mix, setup.membrane, fits, setup.fit_kwargs, kind, setup.t0))
+    # the same Pervaporation / membrane / curve-set objects modelling the same run a second and third time (the single-curve
+    # branch rescales its fit in place): the trace must not change
+    if not v:
+        for rep_i in (2, 3):
+            st2, pm2 = setup.run()
+            if st2 != "ok" or traces.trace_digest(traces.extract(pm2)) != traces.trace_digest(tr):
+                v.append(core.viol("C05/depends_on_earlier_run/" + kind, "run %d of the same model on the same objects differs from run 1 (%s)" % (
+                    rep_i, "raises %r" % (pm2,) if st2 != "ok" else "permeances %r vs %r" % ([p_[0].value for p_ in pm2.permeances][:3], [p_[0] for p_ in tr["P"]][:3]))))
+                break
     return core.result("judged", digest=traces.trace_digest(tr), viol=v, states=n, transitions=max(n - 1, 0), traces=1, lag=ok_lag or 0,
                        sample={"P": tr["P"][:3], "F": Fs})
 
@@ -237,8 +246,8 @@ def process_space(tier, seed):
         "model": ["NRTL"] if q else ["NRTL", "UNIQUAC"],
         "mode": ["vac", ("T", -20.0), ("p", 0.5)],
         "prog": ["none", "poly"],
-        "curves": [spaces.CURVE_CONFIGS["one"], spaces.CURVE_CONFIGS["two"], spaces.CURVE_CONFIGS["oneB_molar"]] if q else list(spaces.CURVE_CONFIGS.values()),
-        "init_perm": [None, {"values": (2.5e-2, 3.0e-5)}, {"values": (1.0e-2, 8.0e-5), "units": "GPU"}],
+        "curves": [spaces.CURVE_CONFIGS["one"], spaces.CURVE_CONFIGS["two"], spaces.CURVE_CONFIGS["oneB_molar"], spaces.CURVE_CONFIGS["oneC"]] if q else list(spaces.CURVE_CONFIGS.values()),
+        "init_perm": [None, {"values": (2.5e-2, 3.0e-5)}, {"values": (1.0e-2, 8.0e-5), "units": "GPU"}, {"values": (2.0e-2, 4.0e-9)}],
         "fit_kwargs": [{}, {"n_first": 1, "n_second": 1, "m_first": 0, "m_second": 0}] + ([] if q else [{"n_first": 2, "n_second": 1, "m_first": 1, "m_second": 1, "include_zero": True}]),
         "area": [0.05, 1.0], "amount": [50.0], "dt": core.lat([0.5, 2.0], seed)[:1] if q else core.lat([0.5, 2.0], seed),
         "steps": [1, 5],
@@ -256,8 +265,8 @@ def curve_space(tier, seed):
     alph = {
         "kind": ["curve"], "mixture": ["H2O_EtOH", "S2"], "model": ["NRTL"] if q else ["NRTL", "UNIQUAC"],
         "mode": ["vac", ("T", -20.0), ("p", 0.5)],
-        "curves": [spaces.CURVE_CONFIGS["one"], spaces.CURVE_CONFIGS["two"], spaces.CURVE_CONFIGS["oneB_molar"]] if q else list(spaces.CURVE_CONFIGS.values()),
-        "init_perm": [None, {"values": (2.5e-2, 3.0e-5)}],
+        "curves": [spaces.CURVE_CONFIGS["one"], spaces.CURVE_CONFIGS["two"], spaces.CURVE_CONFIGS["oneB_molar"], spaces.CURVE_CONFIGS["oneC"]] if q else list(spaces.CURVE_CONFIGS.values()),
+        "init_perm": [None, {"values": (2.5e-2, 3.0e-5)}, {"values": (2.0e-2, 4.0e-9)}],
         "fit_kwargs": [{}, {"n_first": 1, "n_second": 1, "m_first": 0, "m_second": 0}, {"include_zero": True}],
         "x0": core.lat([0.1, 0.45], seed), "basis": ["weight", "molar"], "T": [333.15, 338.15, 318.15], "dx": [0.03, -0.01], "steps": [1, 4],
     }
